@@ -427,6 +427,31 @@ impl Run {
             if res.is_err() {
                 break;
             }
+            // a re-sent revocation for an older commitment (n != the next number: the stateless
+            // path) answers (point(n+1), secret(n-1)): the same keys through another request
+            if n >= 1 && n + 1 < target {
+                match call(|| node.with_channel(&id0, |c| c.revoke_previous_holder_commitment(n))) {
+                    Out::Ok((p, s)) => {
+                        st.class("rerevoke_observed");
+                        res = self.record(st, ctx, ci, Kind::Point, n + 1, p.serialize().to_vec());
+                        if res.is_ok() {
+                            if let Some(s) = s {
+                                res = self.record(st, ctx, ci, Kind::Secret, n - 1, s.secret_bytes().to_vec());
+                            }
+                        }
+                        if res.is_ok() {
+                            if let Out::Ok(p1) = call(|| node.with_channel_base(&id0, |b| b.get_per_commitment_point(n - 1))) {
+                                res = self.record(st, ctx, ci, Kind::Point, n - 1, p1.serialize().to_vec());
+                            }
+                        }
+                    }
+                    Out::Err(_) => st.class("rerevoke_refused"),
+                    Out::Panic(_) => st.class("abort_in_rerevoke"),
+                }
+                if res.is_err() {
+                    break;
+                }
+            }
         }
         let _ = call(|| {
             node.with_channel(&id0, |c| {
